@@ -3,7 +3,9 @@
    word does not change while the spinlock is held, a waiter of nsync_cv_wait_with_deadline sets it with the very CAS
    that acquires the spinlock, so the only window in which the queue holds a record and the bit may be clear is a
    cv_enqueue (nsync_wait_n) between its CAS and its release store, and then only if its record is alone on the queue.
-   Hence: once a waiter's enqueue is complete, no signaller takes the early exit.  Continues Proof/CvProof3.v. *)
+   Hence: once a waiter's enqueue is complete, no signaller takes the early exit.  Continues Proof/CvProof3.v.
+   Second part (layers L and F, at the end): the word of the abstract mutex and the mutex spinlock section of wake_waiters
+   (F15: MU_WAITING is set after the release only if a waiter is queued). *)
 From NsyncBase Require Import CSem.
 From NsyncGen Require Import Consts Sites.
 From NsyncModel Require Import CvModel.
@@ -156,3 +158,614 @@ Proof.
   pose proof (non_empty_strong_reachable progs clock0 exp sched r Hin Hd) as Hne.
   unfold pcof in *. unfold step_core. rewrite Hpc. unfold st_KLoadW. rewrite Hne. simpl. now rewrite pc_set_pc.
 Qed.
+
+(* ================================================================== *)
+(* Layers L and F: the word of the ABSTRACT mutex, and the mutex       *)
+(* spinlock section of wake_waiters (the repair of F15)                *)
+(* ================================================================== *)
+(* Layer L (LInv): the lock field of the abstract mutex word counts the holders of the model (bit 0: the writer, bits 8..31:
+   the readers), whatever the environment does to the flag bits.  Layer F (FInv): while a wake_waiters of the model is
+   between the CAS that takes the mutex spinlock and the CAS that releases it, it is the ghost owner [mspin], the spinlock
+   bit is set in the word, nobody else can enter or dequeue a transferred waiter ([MuDeq] needs the spinlock), so the
+   clear_on_release it computed (k_clr: MU_SPINLOCK, plus MU_WAITING iff the transferred queue was empty and the environment
+   reported no plain locker, k_envq) still describes the queue at the release.  Hence: after the release MU_WAITING is set
+   only if a waiter is queued. *)
+(* ---------- the mutex word: bit operations act on the low byte, the reader count is the rest ---------- *)
+Lemma byte_bits_high l n : 0 <= l < 256 -> 8 <= n -> Z.testbit l n = false.
+Proof. intros Hl Hn. rewrite <- (Z.mod_small l (2 ^ 8)) by (change (2 ^ 8) with 256; lia). apply Z.mod_pow2_bits_high. lia. Qed.
+Lemma byte_range a : 0 <= a -> (forall n, 8 <= n -> Z.testbit a n = false) -> 0 <= a < 256.
+Proof.
+  intros Ha H. assert (E : a = a mod 2 ^ 8).
+  { apply Z.bits_inj'. intros n Hn. destruct (Z.ltb_spec n 8).
+    - now rewrite Z.mod_pow2_bits_low by lia.
+    - rewrite Z.mod_pow2_bits_high by lia. apply H; lia. }
+  pose proof (Z.mod_pos_bound a (2 ^ 8) ltac:(reflexivity)). change (2 ^ 8) with 256 in *. lia.
+Qed.
+Lemma tb_split h l n : 0 <= l < 256 -> 0 <= n ->
+  Z.testbit (256 * h + l) n = if n <? 8 then Z.testbit l n else Z.testbit h (n - 8).
+Proof.
+  intros Hl Hn. destruct (Z.ltb_spec n 8).
+  - rewrite <- (Z.mod_pow2_bits_low (256 * h + l) 8 n) by lia. f_equal. change (2 ^ 8) with 256.
+    rewrite Z.add_comm, Z.mul_comm, Z.mod_add by lia. apply Z.mod_small; lia.
+  - replace n with ((n - 8) + 8) at 1 by lia. rewrite <- Z.div_pow2_bits by lia. f_equal. change (2 ^ 8) with 256.
+    rewrite Z.add_comm, Z.mul_comm, Z.div_add by lia. rewrite Z.div_small by lia. reflexivity.
+Qed.
+Lemma lor_byte_range l m : 0 <= l < 256 -> 0 <= m < 256 -> 0 <= Z.lor l m < 256.
+Proof.
+  intros Hl Hm. apply byte_range; [apply Z.lor_nonneg; lia|]. intros n Hn. rewrite Z.lor_spec, !byte_bits_high by assumption. reflexivity.
+Qed.
+Lemma land_byte_range l m : 0 <= l < 256 -> 0 <= m < 256 -> 0 <= Z.land l m < 256.
+Proof.
+  intros Hl Hm. apply byte_range; [apply Z.land_nonneg; lia|]. intros n Hn. rewrite Z.land_spec, !byte_bits_high by assumption. reflexivity.
+Qed.
+Lemma lor_split h l m : 0 <= l < 256 -> 0 <= m < 256 -> Z.lor (256 * h + l) m = 256 * h + Z.lor l m.
+Proof.
+  intros Hl Hm. pose proof (lor_byte_range l m Hl Hm). apply Z.bits_inj'. intros n Hn.
+  rewrite Z.lor_spec, !tb_split by assumption. destruct (n <? 8) eqn:E; [now rewrite Z.lor_spec|].
+  apply Z.ltb_ge in E. rewrite (byte_bits_high m) by lia. apply orb_false_r.
+Qed.
+Lemma land_split h l h' l' : 0 <= l < 256 -> 0 <= l' < 256 -> Z.land (256 * h + l) (256 * h' + l') = 256 * Z.land h h' + Z.land l l'.
+Proof.
+  intros Hl Hm. pose proof (land_byte_range l l' Hl Hm). apply Z.bits_inj'. intros n Hn.
+  rewrite Z.land_spec, !tb_split by assumption. destruct (n <? 8) eqn:E; now rewrite Z.land_spec.
+Qed.
+
+Definition word_ok (x : Z) : Prop := 0 <= x < 4294967296.
+Lemma word_parts x : word_ok x -> x = 256 * (x / 256) + x mod 256 /\ 0 <= x mod 256 < 256 /\ 0 <= x / 256 < 16777216.
+Proof. unfold word_ok. intros H. pose proof (Z.div_mod x 256 ltac:(lia)). pose proof (Z.mod_pos_bound x 256 ltac:(lia)). 
+  assert (0 <= x / 256) by (apply Z.div_pos; lia). assert (x / 256 < 16777216) by (apply Z.div_lt_upper_bound; lia).
+  repeat split; lia. Qed.
+Lemma word_build h b : 0 <= h < 16777216 -> 0 <= b < 256 ->
+  word_ok (256 * h + b) /\ (256 * h + b) / 256 = h /\ (256 * h + b) mod 256 = b /\ (256 * h + b) mod 2 = b mod 2.
+Proof.
+  intros Hh Hb. unfold word_ok.
+  assert (E1 : (256 * h + b) / 256 = h) by (rewrite Z.add_comm, Z.mul_comm, Z.div_add by lia; rewrite Z.div_small by lia; reflexivity).
+  assert (E2 : (256 * h + b) mod 256 = b) by (rewrite Z.add_comm, Z.mul_comm, Z.mod_add by lia; apply Z.mod_small; lia).
+  repeat split; try lia. replace (256 * h + b) with (b + (128 * h) * 2) by lia. apply Z.mod_add; lia.
+Qed.
+Lemma wrap_word x : word_ok x -> wrap_u 32 x = x.
+Proof. intros H. unfold wrap_u. apply Z.mod_small. exact H. Qed.
+(* x | m and x & ~c for byte masks *)
+Lemma lor_word x m : word_ok x -> 0 <= m < 256 -> Z.lor x m = 256 * (x / 256) + Z.lor (x mod 256) m.
+Proof. intros Hx Hm. destruct (word_parts x Hx) as (E & Hl & _). rewrite E at 1. now apply lor_split. Qed.
+Lemma landn_word x c : word_ok x -> 0 <= c < 256 -> Z.land x (4294967295 - c) = 256 * (x / 256) + Z.land (x mod 256) (255 - c).
+Proof.
+  intros Hx Hc. destruct (word_parts x Hx) as (E & Hl & Hh). rewrite E at 1.
+  replace (4294967295 - c) with (256 * 16777215 + (255 - c)) by lia. rewrite land_split by lia. f_equal. f_equal.
+  change 16777215 with (Z.ones 24). rewrite Z.land_ones by lia. apply Z.mod_small. change (2 ^ 24) with 16777216. lia.
+Qed.
+Lemma land_word_byte x m : word_ok x -> 0 <= m < 256 -> Z.land x m = Z.land (x mod 256) m.
+Proof.
+  intros Hx Hm. destruct (word_parts x Hx) as (E & Hl & Hh). rewrite E at 1.
+  replace m with (256 * 0 + m) at 1 by lia. rewrite land_split by lia. rewrite Z.land_0_r. lia.
+Qed.
+Lemma has_word_byte x m : word_ok x -> 0 <= m < 256 -> has x m = has (x mod 256) m.
+Proof. intros. unfold has, band. now rewrite land_word_byte. Qed.
+
+(* exhaustive check over a byte *)
+Lemma byte_all (f : Z -> bool) : forallb f (map Z.of_nat (seq 0 256)) = true -> forall l, 0 <= l < 256 -> f l = true.
+Proof.
+  intros H l Hl. rewrite forallb_forall in H. apply H. apply in_map_iff. exists (Z.to_nat l). split; [lia|]. apply in_seq. lia.
+Qed.
+Lemma lor_step h b m : 0 <= h < 16777216 -> 0 <= b < 256 -> 0 <= m < 256 -> wrap_u 32 (Z.lor (256 * h + b) m) = 256 * h + Z.lor b m.
+Proof.
+  intros Hh Hb Hm. rewrite lor_split by assumption. apply wrap_word. apply word_build; [assumption | now apply lor_byte_range].
+Qed.
+Lemma landn_step h b c : 0 <= h < 16777216 -> 0 <= b < 256 -> 0 <= c < 256 ->
+  wrap_u 32 (Z.land (256 * h + b) (4294967295 - c)) = 256 * h + Z.land b (255 - c).
+Proof.
+  intros Hh Hb Hc. destruct (word_build h b Hh Hb) as (Hw & E1 & E2 & _).
+  rewrite (landn_word _ c Hw Hc), E1, E2. apply wrap_word. apply word_build; [assumption | apply land_byte_range; lia].
+Qed.
+
+Definition same_lock (x x' : Z) : Prop := word_ok x' /\ x' mod 2 = x mod 2 /\ x' / 256 = x / 256.
+
+(* the CAS of wake_waiters that takes the mutex spinlock *)
+Lemma cas1_word x : word_ok x -> same_lock x (wake_waiters_cas1_new x) /\ has (wake_waiters_cas1_new x) MU_SPINLOCK = true.
+Proof.
+  intros Hx. destruct (word_parts x Hx) as (E & Hl & Hh). set (h := x / 256) in *. set (l := x mod 256) in *.
+  assert (Eb : wake_waiters_cas1_new x = 256 * h + Z.land (Z.lor (Z.lor l 2) 4) 127).
+  { unfold wake_waiters_cas1_new. change (wrap_u 32 (wrap_s 32 (Z.shiftl 1 1))) with 2. change (wrap_u 32 (wrap_s 32 (Z.shiftl 1 2))) with 4.
+    change (wrap_u 32 (wrap_s 32 (Z.shiftl 1 7))) with 128. rewrite E.
+    rewrite lor_step by lia. rewrite lor_step by (try apply lor_byte_range; lia).
+    rewrite landn_step by (try (apply lor_byte_range; [apply lor_byte_range|]); lia). reflexivity. }
+  assert (Hb : 0 <= Z.land (Z.lor (Z.lor l 2) 4) 127 < 256) by (apply land_byte_range; [apply lor_byte_range; [apply lor_byte_range|]|]; lia).
+  destruct (word_build h _ Hh Hb) as (W1 & W2 & W3 & W4).
+  pose proof (byte_all (fun l => (Z.land (Z.lor (Z.lor l 2) 4) 127 mod 2 =? l mod 2) && has (Z.land (Z.lor (Z.lor l 2) 4) 127) MU_SPINLOCK)
+                ltac:(vm_compute; reflexivity) l Hl) as Hbyte.
+  apply andb_prop in Hbyte. destruct Hbyte as (B1 & B2). apply Z.eqb_eq in B1.
+  rewrite Eb. split; [split; [exact W1 | split; [|exact W2]]|].
+  - rewrite W4, B1. subst l. rewrite <- Znumtheory.Zmod_div_mod by (try lia; exists 128; reflexivity). reflexivity.
+  - rewrite (has_word_byte _ MU_SPINLOCK W1) by (unfold MU_SPINLOCK; lia). rewrite W3. exact B2.
+Qed.
+
+(* the CAS of wake_waiters that releases it *)
+Lemma cas2_word x s c : word_ok x -> s = 0 \/ s = MU_WRITER_WAITING -> c = MU_SPINLOCK \/ c = Z.lor MU_SPINLOCK MU_WAITING ->
+  same_lock x (wake_waiters_cas2_new x s c) /\ (c = Z.lor MU_SPINLOCK MU_WAITING -> has (wake_waiters_cas2_new x s c) MU_WAITING = false) /\
+  (c = MU_SPINLOCK -> has (wake_waiters_cas2_new x s c) MU_WAITING = has x MU_WAITING).
+Proof.
+  intros Hx Hs Hc. destruct (word_parts x Hx) as (E & Hl & Hh). set (h := x / 256) in *. set (l := x mod 256) in *.
+  assert (Hs' : 0 <= s < 256) by (destruct Hs as [-> | ->]; unfold MU_WRITER_WAITING; lia).
+  assert (Hc' : 0 <= c < 256) by (destruct Hc as [-> | ->]; vm_compute; split; congruence).
+  assert (Eb : wake_waiters_cas2_new x s c = 256 * h + Z.land (Z.lor l s) (255 - c)).
+  { unfold wake_waiters_cas2_new. rewrite E. rewrite lor_step by lia. rewrite landn_step by (try apply lor_byte_range; lia). reflexivity. }
+  assert (Hb : 0 <= Z.land (Z.lor l s) (255 - c) < 256) by (apply land_byte_range; [apply lor_byte_range|]; lia).
+  destruct (word_build h _ Hh Hb) as (W1 & W2 & W3 & W4).
+  assert (Hbyte : Z.land (Z.lor l s) (255 - c) mod 2 = l mod 2 /\ (c = Z.lor MU_SPINLOCK MU_WAITING -> has (Z.land (Z.lor l s) (255 - c)) MU_WAITING = false) /\
+                  (c = MU_SPINLOCK -> has (Z.land (Z.lor l s) (255 - c)) MU_WAITING = has l MU_WAITING)).
+  { destruct Hs as [-> | ->], Hc as [-> | ->].
+    all: match goal with |- Z.land (Z.lor _ ?s0) (255 - ?c0) mod 2 = _ /\ _ =>
+           pose proof (byte_all (fun l => (Z.land (Z.lor l s0) (255 - c0) mod 2 =? l mod 2) &&
+                                          (negb (c0 =? Z.lor MU_SPINLOCK MU_WAITING) || negb (has (Z.land (Z.lor l s0) (255 - c0)) MU_WAITING)) &&
+                                          (negb (c0 =? MU_SPINLOCK) || Bool.eqb (has (Z.land (Z.lor l s0) (255 - c0)) MU_WAITING) (has l MU_WAITING)))
+                         ltac:(vm_compute; reflexivity) l Hl) as Hq end.
+    all: apply andb_prop in Hq; destruct Hq as (Hq & B3); apply andb_prop in Hq; destruct Hq as (B1 & B2); apply Z.eqb_eq in B1; split; [exact B1|].
+    all: split; intros Ec; try (vm_compute in Ec; discriminate).
+    all: try (rewrite Z.eqb_refl in B2; simpl in B2; now apply negb_true_iff in B2).
+    all: rewrite Z.eqb_refl in B3; simpl in B3; now apply eqb_prop in B3. }
+  destruct Hbyte as (B1 & B2 & B3). rewrite Eb. split; [split; [exact W1 | split; [|exact W2]]|split].
+  - rewrite W4, B1. subst l. rewrite <- Znumtheory.Zmod_div_mod by (try lia; exists 128; reflexivity). reflexivity.
+  - intros Ec. rewrite (has_word_byte _ MU_WAITING W1) by (unfold MU_WAITING; lia). rewrite W3. now apply B2.
+  - intros Ec. rewrite (has_word_byte _ MU_WAITING W1), (has_word_byte x MU_WAITING Hx) by (unfold MU_WAITING; lia). rewrite W3. now apply B3.
+Qed.
+
+(* the environment rewrites the flag bits *)
+Lemma env_word x f : word_ok x ->
+  let x' := mu_lockf x + mu_flags (wrap_u 32 f) in
+  same_lock x x' /\ has x' MU_SPINLOCK = has (mu_flags (wrap_u 32 f)) MU_SPINLOCK.
+Proof.
+  intros Hx. cbv zeta. destruct (word_parts x Hx) as (E & Hl & Hh). set (h := x / 256) in *. set (l := x mod 256) in *.
+  assert (Hy : word_ok (wrap_u 32 f)) by (unfold word_ok, wrap_u; apply Z.mod_pos_bound; reflexivity).
+  destruct (word_parts _ Hy) as (_ & Hly & _). set (ly := wrap_u 32 f mod 256) in *.
+  assert (E1 : mu_lockf x = 256 * h + Z.land l 1).
+  { unfold mu_lockf, band. change MU_ANY_LOCK with (4294967295 - 254). now rewrite landn_word by (try assumption; lia). }
+  assert (E2 : mu_flags (wrap_u 32 f) = Z.land ly 254).
+  { unfold mu_flags, band. change (bnot32 MU_ANY_LOCK) with 254. now rewrite land_word_byte by (try assumption; lia). }
+  pose proof (byte_all (fun l => forallb (fun ly => let b := Z.land l 1 + Z.land ly 254 in
+                                    (0 <=? b) && (b <? 256) && (b mod 2 =? l mod 2) && Bool.eqb (has b MU_SPINLOCK) (has (Z.land ly 254) MU_SPINLOCK))
+                                  (map Z.of_nat (seq 0 256))) ltac:(vm_compute; reflexivity) l Hl) as Hq.
+  pose proof (byte_all _ Hq ly Hly) as Hb. cbv zeta in Hb.
+  apply andb_prop in Hb. destruct Hb as (Hb & B4). apply andb_prop in Hb. destruct Hb as (Hb & B3). apply andb_prop in Hb. destruct Hb as (B1 & B2).
+  apply Z.leb_le in B1. apply Z.ltb_lt in B2. apply Z.eqb_eq in B3. apply eqb_prop in B4.
+  rewrite E1, E2. replace (256 * h + Z.land l 1 + Z.land ly 254) with (256 * h + (Z.land l 1 + Z.land ly 254)) by lia.
+  destruct (word_build h _ Hh (conj B1 B2)) as (W1 & W2 & W3 & W4).
+  split; [split; [exact W1 | split; [|exact W2]]|].
+  - rewrite W4, B3. subst l. rewrite <- Znumtheory.Zmod_div_mod by (try lia; exists 128; reflexivity). reflexivity.
+  - rewrite (has_word_byte _ MU_SPINLOCK W1) by (unfold MU_SPINLOCK; lia). rewrite W3. exact B4.
+Qed.
+
+(* the abstract acquisitions / releases change the lock field only *)
+Lemma lock_arith x d : word_ok x -> word_ok (x + d) ->
+  (d = 1 /\ x mod 2 = 0) \/ (d = -1 /\ x mod 2 = 1) \/ d = 256 \/ d = -256 ->
+  has (x + d) MU_SPINLOCK = has x MU_SPINLOCK.
+Proof.
+  intros Hx Hx' Hd. rewrite (has_word_byte _ MU_SPINLOCK Hx'), (has_word_byte _ MU_SPINLOCK Hx) by (unfold MU_SPINLOCK; lia).
+  destruct (word_parts x Hx) as (E & Hl & Hh). set (l := x mod 256) in *.
+  assert (Hl2 : l mod 2 = x mod 2) by (subst l; rewrite <- Znumtheory.Zmod_div_mod by (try lia; exists 128; reflexivity); reflexivity).
+  destruct Hd as [(-> & He) | [(-> & Ho) | [-> | ->]]].
+  - assert (Em : (x + 1) mod 256 = l + 1).
+    { rewrite E. replace (256 * (x / 256) + l + 1) with ((l + 1) + (x / 256) * 256) by lia. rewrite Z.mod_add by lia. apply Z.mod_small.
+      rewrite <- Hl2 in He. assert (l <> 255) by (intros ->; discriminate). lia. }
+    rewrite Em. pose proof (byte_all (fun l => negb (l mod 2 =? 0) || Bool.eqb (has (l + 1) MU_SPINLOCK) (has l MU_SPINLOCK)) ltac:(vm_compute; reflexivity) l Hl) as Hq.
+    cbv beta in Hq. rewrite Hl2, He in Hq. simpl in Hq. now apply eqb_prop.
+  - assert (Em : (x + -1) mod 256 = l - 1).
+    { rewrite E. replace (256 * (x / 256) + l + -1) with ((l - 1) + (x / 256) * 256) by lia. rewrite Z.mod_add by lia. apply Z.mod_small.
+      rewrite <- Hl2 in Ho. assert (l <> 0) by (intros ->; discriminate). lia. }
+    rewrite Em. pose proof (byte_all (fun l => negb (l mod 2 =? 1) || Bool.eqb (has (l - 1) MU_SPINLOCK) (has l MU_SPINLOCK)) ltac:(vm_compute; reflexivity) l Hl) as Hq.
+    cbv beta in Hq. rewrite Hl2, Ho in Hq. simpl in Hq. now apply eqb_prop.
+  - replace (x + 256) with (x + 1 * 256) by lia. now rewrite Z.mod_add by lia.
+  - replace (x + -256) with (x + (-1) * 256) by lia. now rewrite Z.mod_add by lia.
+Qed.
+
+(* ---------- what a step of a thread does to the ABSTRACT mutex ---------- *)
+Definition rel_pc (p : pc) : option kl := match p with VLoad3 k | VCas2 k _ | VLoad5 k => Some k | _ => None end.
+Definition cas1_old (p : pc) : option Z := match p with VCas1 _ old => Some old | _ => None end.
+Definition lock_pc (p : pc) : option mode := match p with MLock m => Some m | _ => None end.
+
+
+Section StepM.
+  Variables (w : world) (t : nat) (c : choice).
+  Let w' := fst (step_core w t c).
+  Let p := t_pc (get w t).
+  Let p' := t_pc (get w' t).
+  (* nothing of the mutex changes *)
+  Definition M_same : Prop :=
+    muw w' = muw w /\ mspin w' = mspin w /\ muq w' = muq w /\ held (get w' t) = held (get w t) /\ rel_pc p' = rel_pc p /\
+    (forall old, cas1_old p' = Some old -> cas1_old p = Some old \/ (old = muw w /\ has old MU_SPINLOCK = false)) /\
+    (forall m, lock_pc p' = Some m -> lock_pc p = Some m).
+  Definition M_quiet : Prop :=
+    mspin w' = mspin w /\ muq w' = muq w /\ rel_pc p = None /\ rel_pc p' = None /\ cas1_old p' = None /\ lock_pc p' = None.
+  Definition M_acquire : Prop :=
+    exists m, can_acquire (muw w) m = true /\ muw w' = muw w + add_of m /\ held (get w t) = None /\ held (get w' t) = Some m /\ M_quiet.
+  Definition M_release : Prop :=
+    exists m, held (get w t) = Some m /\ held (get w' t) = None /\ muw w' = muw w - add_of m /\ M_quiet.
+  Definition M_enter : Prop :=
+    exists k old k', p = VCas1 k old /\ muw w = old /\ muw w' = wake_waiters_cas1_new old /\ mspin w' = Some t /\ p' = VLoad3 k' /\
+      (exists moved, muq w' = muq w ++ moved) /\ k_clr k' = clear_on_release (muq w') (k_envq k') /\
+      (k_set k' = 0 \/ k_set k' = MU_WRITER_WAITING) /\ held (get w' t) = held (get w t).
+  Definition M_exit : Prop :=
+    exists k old, p = VCas2 k old /\ muw w = old /\ muw w' = wake_waiters_cas2_new old (k_set k) (k_clr k) /\ mspin w' = None /\
+      muq w' = muq w /\ rel_pc p' = None /\ cas1_old p' = None /\ lock_pc p' = None /\ held (get w' t) = held (get w t).
+End StepM.
+
+Lemma rel_enter_wake_loop k : rel_pc (enter_wake_loop k) = None /\ cas1_old (enter_wake_loop k) = None /\ lock_pc (enter_wake_loop k) = None.
+Proof. unfold enter_wake_loop. destruct (k_wake k); auto. Qed.
+Lemma rel_after_todo k : rel_pc (after_todo k) = None /\ cas1_old (after_todo k) = None /\ lock_pc (after_todo k) = None.
+Proof. unfold after_todo. destruct (k_todo k); auto. Qed.
+
+Lemma step_core_M w t c : (t < length (thr w))%nat ->
+  (is_acq_pc (t_pc (get w t)) = true -> held (get w t) = None) ->
+  M_same w t c \/ M_acquire w t c \/ M_release w t c \/ M_enter w t c \/ M_exit w t c.
+Proof.
+  intros Hlt Hacq. unfold M_same, M_acquire, M_release, M_enter, M_exit, M_quiet.
+  step_cases w t; rewrite ?Hpc in *; simpl in Hacq; simpl fst; pc_nf; get_nf; rewrite ?Hpc; simpl muw; simpl mspin; simpl muq.
+  all: rewrite ?(proj1 (rel_enter_wake_loop _)), ?(proj1 (proj2 (rel_enter_wake_loop _))), ?(proj2 (proj2 (rel_enter_wake_loop _))),
+               ?(proj1 (rel_after_todo _)), ?(proj1 (proj2 (rel_after_todo _))), ?(proj2 (proj2 (rel_after_todo _))).
+  all: try solve [left; repeat split; try reflexivity; simpl; intros ? HH; try discriminate HH; auto].
+  all: try solve [right; left; eexists; repeat split; try reflexivity; try eassumption; apply Hacq; reflexivity].
+  all: try solve [right; right; left; eexists; repeat split; try reflexivity; try eassumption].
+  all: try solve [left; repeat split; try reflexivity; try assumption; simpl; intros ? HH; try discriminate HH; auto].
+  all: try match goal with H : mode_eqb _ _ = true |- _ => apply mode_eqb_eq in H; subst end.
+  all: try solve [right; right; left; eexists; repeat split; try reflexivity; try eassumption].
+  all: zbool; unfold wake_waiters_cas1_old, wake_waiters_cas2_old in *.
+  (* VLoad1 -> VCas1: the word it read has the spinlock bit clear *)
+  all: try solve [left; repeat split; try reflexivity; simpl; intros ? HH; try discriminate HH; injection HH as <-; right; split; [reflexivity|];
+                  match goal with H : _ && negb (has (muw _) MU_SPINLOCK) && _ = true |- _ =>
+                    apply andb_prop in H; destruct H as (H & _); apply andb_prop in H; destruct H as (_ & H); now apply negb_true_iff in H end].
+  (* exit *)
+  all: try solve [right; right; right; right; eexists _, _; repeat split; try reflexivity; try eassumption; symmetry; assumption].
+  (* enter *)
+  all: try solve [right; right; right; left; eexists _, _, _; split; [reflexivity|]; split; [eassumption|]; split; [reflexivity|]; split; [reflexivity|];
+                  split; [reflexivity|]; split; [eexists; reflexivity|]; split; [reflexivity|]; split; [|reflexivity];
+                  simpl; match goal with H : xfer ?a ?b ?cc = (_, _, ?z) |- _ => pose proof (xfer_set a b cc) as X; rewrite H in X; exact X end].
+  left; repeat split; try reflexivity; simpl; intros ? HH; try discriminate HH. injection HH as <-. right. split; [reflexivity|].
+  match goal with H : negb (has (muw _) MU_SPINLOCK) = true |- _ => now apply negb_true_iff in H end.
+Qed.
+
+
+(* ---------- Layer L: the lock field of the abstract mutex word counts the holders ---------- *)
+Definition hW (s : tstate) : Z := match held s with Some W => 1 | _ => 0 end.
+Definition hR (s : tstate) : Z := match held s with Some R => 1 | _ => 0 end.
+Fixpoint sumf (f : tstate -> Z) (l : list tstate) : Z := match l with [] => 0 | s :: r => f s + sumf f r end.
+Lemma sumf_change f l : forall l' t, length l' = length l -> (t < length l)%nat ->
+  (forall t', t' <> t -> nth t' l' dflt_t = nth t' l dflt_t) ->
+  sumf f l' = sumf f l - f (nth t l dflt_t) + f (nth t l' dflt_t).
+Proof.
+  induction l as [|a l IH]; intros l' t Hlen Hlt Hoth; [simpl in Hlt; lia|].
+  destruct l' as [|a' l']; [discriminate|]. simpl in Hlen, Hlt. destruct t as [|t].
+  - simpl. assert (E : l' = l).
+    { apply (nth_ext _ _ dflt_t dflt_t); [lia|]. intros n _. exact (Hoth (S n) ltac:(discriminate)). }
+    rewrite E. lia.
+  - simpl. pose proof (Hoth 0%nat ltac:(discriminate)) as E0. simpl in E0. subst a'.
+    rewrite (IH l' t) by (try lia; intros t' Ht'; exact (Hoth (S t') ltac:(congruence))). lia.
+Qed.
+Lemma sumf_same f l l' : length l' = length l -> (forall t, nth t l' dflt_t = nth t l dflt_t) -> sumf f l' = sumf f l.
+Proof. intros Hlen H. f_equal. apply (nth_ext _ _ dflt_t dflt_t); auto. Qed.
+
+Definition LInv (w : world) : Prop :=
+  word_ok (muw w) /\ muw w mod 2 = sumf hW (thr w) /\ muw w / 256 = sumf hR (thr w) /\
+  (sumf hW (thr w) = 0 \/ sumf hR (thr w) = 0) /\
+  (forall t m, t_pc (get w t) = MLock m -> held (get w t) = None).
+
+(* ---------- Layer F: the mutex spinlock section of wake_waiters (F15) ---------- *)
+(* what the release will clear, against the mutex queue and the environment's report *)
+Definition clr_ok (k : kl) (q : list nat) : Prop :=
+  (k_set k = 0 \/ k_set k = MU_WRITER_WAITING) /\
+  ((k_clr k = Z.lor MU_SPINLOCK MU_WAITING /\ q = [] /\ k_envq k = false) \/
+   (k_clr k = MU_SPINLOCK /\ (q <> [] \/ k_envq k = true))).
+Definition FInv (w : world) : Prop :=
+  (forall t, mspin w = Some t -> has (muw w) MU_SPINLOCK = true /\ exists k, rel_pc (t_pc (get w t)) = Some k) /\
+  (forall t k, rel_pc (t_pc (get w t)) = Some k -> mspin w = Some t /\ clr_ok k (muq w)) /\
+  (forall t old, cas1_old (t_pc (get w t)) = Some old -> has old MU_SPINLOCK = false).
+
+Lemma acq_held_none w t : TInv w -> LInv w -> is_acq_pc (t_pc (get w t)) = true -> held (get w t) = None.
+Proof.
+  intros (_ & HT) (_ & _ & _ & _ & HL) Hp. specialize (HT t). unfold tinv, tinv_s in HT. destruct HT as (_ & H2 & H3).
+  destruct (t_pc (get w t)) eqn:Hpc; try discriminate Hp.
+  - now apply (HL t m).
+  - simpl in H2. tauto.
+  - simpl in H3. tauto.
+Qed.
+
+Lemma sumf_ext f l : forall l', length l' = length l -> (forall t, f (nth t l' dflt_t) = f (nth t l dflt_t)) -> sumf f l' = sumf f l.
+Proof.
+  induction l as [|a l IH]; intros [|a' l'] Hlen H; try discriminate; [reflexivity|]. simpl.
+  pose proof (H 0%nat) as H0. simpl in H0. rewrite H0. f_equal. apply IH; [simpl in Hlen; lia|]. intros t. exact (H (S t)).
+Qed.
+Lemma sumf_ge f l t : (forall s, 0 <= f s) -> (t < length l)%nat -> f (nth t l dflt_t) <= sumf f l /\ 0 <= sumf f l.
+Proof.
+  intros Hf. revert t. induction l as [|a l IH]; intros t Hlt; [simpl in Hlt; lia|]. simpl in Hlt.
+  assert (H0 : 0 <= sumf f l).
+  { clear IH Hlt. induction l as [|b l IHl]; simpl; [lia|]. specialize (Hf b). lia. }
+  destruct t as [|t]; simpl; [specialize (Hf a); lia|]. destruct (IH t ltac:(lia)). specialize (Hf a). lia.
+Qed.
+Lemma hW_nonneg s : 0 <= hW s. Proof. unfold hW. destruct (held s) as [[|]|]; lia. Qed.
+Lemma hR_nonneg s : 0 <= hR s. Proof. unfold hR. destruct (held s) as [[|]|]; lia. Qed.
+
+Lemma clear_on_release_ok k q : k_clr k = clear_on_release q (k_envq k) -> (k_set k = 0 \/ k_set k = MU_WRITER_WAITING) -> clr_ok k q.
+Proof.
+  intros E Hs. split; [exact Hs|]. unfold clear_on_release in E. destruct q as [|r q]; simpl in E.
+  - destruct (k_envq k); simpl in E; [right; auto | left; auto].
+  - right. split; [exact E | left; discriminate].
+Qed.
+Lemma clr_ok_vals k q : clr_ok k q -> (k_set k = 0 \/ k_set k = MU_WRITER_WAITING) /\ (k_clr k = MU_SPINLOCK \/ k_clr k = Z.lor MU_SPINLOCK MU_WAITING).
+Proof. intros (A & [(B & _)|(B & _)]); auto. Qed.
+
+Ltac Zify.zify_post_hook ::= Z.div_mod_to_equations.
+
+(* the two layers are preserved together by a step of a thread *)
+Lemma LF_step_core w t c : TInv w -> LInv w -> FInv w -> (t < length (thr w))%nat ->
+  LInv (fst (step_core w t c)) /\ FInv (fst (step_core w t c)).
+Proof.
+  intros HT HL HF Hlt. pose proof (acq_held_none w t HT HL) as Hacq.
+  pose proof (step_core_M w t c Hlt Hacq) as HM.
+  destruct HL as (L1 & L2 & L3 & L4 & L5). destruct HF as (F1 & F2 & F3).
+  set (w' := fst (step_core w t c)) in *.
+  assert (Hoth : forall t', t' <> t -> get w' t' = get w t') by (intros; apply step_core_other; congruence).
+  assert (Hlen : length (thr w') = length (thr w)) by apply (step_core_misc w t c).
+  assert (HsW : sumf hW (thr w') = sumf hW (thr w) - hW (get w t) + hW (get w' t)).
+  { apply sumf_change; [exact Hlen | exact Hlt | intros t' Ht'; exact (Hoth t' Ht')]. }
+  assert (HsR : sumf hR (thr w') = sumf hR (thr w) - hR (get w t) + hR (get w' t)).
+  { apply sumf_change; [exact Hlen | exact Hlt | intros t' Ht'; exact (Hoth t' Ht')]. }
+  pose proof (sumf_ge hW (thr w) t hW_nonneg Hlt) as (GW & GW0). pose proof (sumf_ge hR (thr w) t hR_nonneg Hlt) as (GR & GR0).
+  fold (get w t) in GW, GR.
+  assert (L5' : forall t' m, t' <> t -> t_pc (get w' t') = MLock m -> held (get w' t') = None).
+  { intros t' m Hne. rewrite (Hoth t' Hne). apply L5. }
+  assert (F3' : forall t' old, t' <> t -> cas1_old (t_pc (get w' t')) = Some old -> has old MU_SPINLOCK = false).
+  { intros t' old Hne. rewrite (Hoth t' Hne). apply F3. }
+  unfold M_same, M_acquire, M_release, M_enter, M_exit, M_quiet in HM. fold w' in HM. unfold LInv, FInv.
+  destruct HM as [(Emu & Esp & Eq & Eh & Er & Ec & El) | [(m & Hca & Emu & Eh0 & Eh1 & Esp & Eq & Er0 & Er1 & Ec & El)
+                | [(m & Eh0 & Eh1 & Emu & Esp & Eq & Er0 & Er1 & Ec & El) | [(k & old & k' & Ep & Eold & Emu & Esp & Ep' & (moved & Eq) & Eclr & Eset & Eh)
+                | (k & old & Ep & Eold & Emu & Esp & Eq & Er1 & Ec & El & Eh)]]]].
+  - (* nothing of the mutex changes *)
+    assert (EW : hW (get w' t) = hW (get w t)) by (unfold hW; now rewrite Eh).
+    assert (ER : hR (get w' t) = hR (get w t)) by (unfold hR; now rewrite Eh).
+    split.
+    + rewrite Emu. split; [exact L1|]. split; [lia|]. split; [lia|]. split; [lia|].
+      intros t' m. destruct (Nat.eq_dec t' t) as [->|Hne]; [|now apply L5'].
+      intros Hp. rewrite Eh. apply (L5 t m). specialize (El m). rewrite Hp in El. specialize (El eq_refl).
+      destruct (t_pc (get w t)); try discriminate El. simpl in El. congruence.
+    + split; [|split].
+      * intros t0. rewrite Esp, Emu. intros Hs. destruct (F1 t0 Hs) as (A & k & B). split; [exact A|]. exists k.
+        destruct (Nat.eq_dec t0 t) as [->|Hne]; [now rewrite Er | now rewrite Hoth].
+      * intros t0 k. rewrite Esp, Eq. destruct (Nat.eq_dec t0 t) as [->|Hne]; [rewrite Er | rewrite Hoth by assumption]; apply F2.
+      * intros t0 old. destruct (Nat.eq_dec t0 t) as [->|Hne]; [|now apply F3'].
+        intros Hc. destruct (Ec old Hc) as [Hc'|(-> & Hc')]; [now apply (F3 t) | exact Hc'].
+  - (* an abstract acquisition *)
+    assert (EW0 : hW (get w t) = 0) by (unfold hW; now rewrite Eh0). assert (ER0 : hR (get w t) = 0) by (unfold hR; now rewrite Eh0).
+    assert (Hl : word_ok (muw w') /\ muw w' mod 2 = sumf hW (thr w') /\ muw w' / 256 = sumf hR (thr w') /\
+                 (sumf hW (thr w') = 0 \/ sumf hR (thr w') = 0) /\
+                 ((add_of m = 1 /\ muw w mod 2 = 0) \/ add_of m = 256)).
+    { assert (EW1 : hW (get w' t) = match m with W => 1 | R => 0 end) by (unfold hW; rewrite Eh1; now destruct m).
+      assert (ER1 : hR (get w' t) = match m with W => 0 | R => 1 end) by (unfold hR; rewrite Eh1; now destruct m).
+      unfold word_ok in *. rewrite Emu, HsW, HsR, EW0, ER0, EW1, ER1.
+      destruct m; simpl in Hca; apply andb_prop in Hca; destruct Hca as (C1 & C2); apply Z.eqb_eq in C1.
+      - apply Z.eqb_eq in C2. change (add_of W) with 1. repeat split; lia.
+      - apply Z.ltb_lt in C2. change (add_of R) with 256. repeat split; lia. }
+    destruct Hl as (A1 & A2 & A3 & A4 & A5). split.
+    + split; [exact A1|]. split; [exact A2|]. split; [exact A3|]. split; [exact A4|].
+      intros t' m'. destruct (Nat.eq_dec t' t) as [->|Hne]; [|now apply L5']. intros Hp. rewrite Hp in El. discriminate El.
+    + assert (Hhas : has (muw w') MU_SPINLOCK = has (muw w) MU_SPINLOCK).
+      { rewrite Emu. apply lock_arith; [exact L1 | now rewrite <- Emu |]. destruct A5 as [(-> & A5) | -> ]; [left; auto | right; right; left; reflexivity]. }
+      split; [|split].
+      * intros t0. rewrite Esp, Hhas. intros Hs. destruct (F1 t0 Hs) as (A & k & B). split; [exact A|]. exists k.
+        destruct (Nat.eq_dec t0 t) as [->|Hne]; [congruence | now rewrite Hoth].
+      * intros t0 k. rewrite Esp, Eq. destruct (Nat.eq_dec t0 t) as [->|Hne]; [rewrite Er1; discriminate | rewrite Hoth by assumption; apply F2].
+      * intros t0 old. destruct (Nat.eq_dec t0 t) as [->|Hne]; [rewrite Ec; discriminate | now apply F3'].
+  - (* an abstract release *)
+    assert (EW1 : hW (get w' t) = 0) by (unfold hW; now rewrite Eh1). assert (ER1 : hR (get w' t) = 0) by (unfold hR; now rewrite Eh1).
+    assert (Hl : word_ok (muw w') /\ muw w' mod 2 = sumf hW (thr w') /\ muw w' / 256 = sumf hR (thr w') /\
+                 (sumf hW (thr w') = 0 \/ sumf hR (thr w') = 0) /\
+                 ((- add_of m = -1 /\ muw w mod 2 = 1) \/ - add_of m = -256)).
+    { assert (EW0 : hW (get w t) = match m with W => 1 | R => 0 end) by (unfold hW; rewrite Eh0; now destruct m).
+      assert (ER0 : hR (get w t) = match m with W => 0 | R => 1 end) by (unfold hR; rewrite Eh0; now destruct m).
+      unfold word_ok in *. rewrite Emu, HsW, HsR, EW1, ER1. rewrite EW0 in *. rewrite ER0 in *.
+      destruct m; [change (add_of W) with 1 | change (add_of R) with 256]; repeat split; lia. }
+    destruct Hl as (A1 & A2 & A3 & A4 & A5). split.
+    + split; [exact A1|]. split; [exact A2|]. split; [exact A3|]. split; [exact A4|].
+      intros t' m'. destruct (Nat.eq_dec t' t) as [->|Hne]; [|now apply L5']. intros Hp. rewrite Hp in El. discriminate El.
+    + assert (Hhas : has (muw w') MU_SPINLOCK = has (muw w) MU_SPINLOCK).
+      { rewrite Emu. replace (muw w - add_of m) with (muw w + - add_of m) by lia.
+        apply lock_arith; [exact L1 | replace (muw w + - add_of m) with (muw w - add_of m) by lia; now rewrite <- Emu |].
+        destruct A5 as [(-> & A5) | -> ]; [right; left; auto | right; right; right; reflexivity]. }
+      split; [|split].
+      * intros t0. rewrite Esp, Hhas. intros Hs. destruct (F1 t0 Hs) as (A & k & B). split; [exact A|]. exists k.
+        destruct (Nat.eq_dec t0 t) as [->|Hne]; [congruence | now rewrite Hoth].
+      * intros t0 k. rewrite Esp, Eq. destruct (Nat.eq_dec t0 t) as [->|Hne]; [rewrite Er1; discriminate | rewrite Hoth by assumption; apply F2].
+      * intros t0 old. destruct (Nat.eq_dec t0 t) as [->|Hne]; [rewrite Ec; discriminate | now apply F3'].
+  - (* wake_waiters takes the mutex spinlock *)
+    assert (EW : hW (get w' t) = hW (get w t)) by (unfold hW; now rewrite Eh).
+    assert (ER : hR (get w' t) = hR (get w t)) by (unfold hR; now rewrite Eh).
+    assert (Hold : has (muw w) MU_SPINLOCK = false) by (rewrite Eold; apply (F3 t); now rewrite Ep).
+    assert (Hnone : mspin w = None).
+    { destruct (mspin w) as [t0|] eqn:Es; [|reflexivity]. destruct (F1 t0 eq_refl) as (A & _). congruence. }
+    rewrite <- Eold in Emu. destruct (cas1_word (muw w) L1) as ((C1 & C2 & C3) & C4). rewrite <- Emu in *.
+    split.
+    + split; [exact C1|]. split; [lia|]. split; [lia|]. split; [lia|].
+      intros t' m. destruct (Nat.eq_dec t' t) as [->|Hne]; [|now apply L5']. rewrite Ep'. discriminate.
+    + split; [|split].
+      * intros t0 Hs. rewrite Esp in Hs. injection Hs as <-. split; [exact C4|]. exists k'. now rewrite Ep'.
+      * intros t0 k0. destruct (Nat.eq_dec t0 t) as [->|Hne].
+        -- rewrite Ep'. simpl. intros [= <-]. split; [exact Esp|]. now apply clear_on_release_ok.
+        -- rewrite Hoth by assumption. intros Hr. destruct (F2 t0 k0 Hr) as (A & _). congruence.
+      * intros t0 old0. destruct (Nat.eq_dec t0 t) as [->|Hne]; [rewrite Ep'; discriminate | now apply F3'].
+  - (* wake_waiters releases it *)
+    assert (EW : hW (get w' t) = hW (get w t)) by (unfold hW; now rewrite Eh).
+    assert (ER : hR (get w' t) = hR (get w t)) by (unfold hR; now rewrite Eh).
+    destruct (F2 t k) as (Hsp & Hok); [now rewrite Ep|]. destruct (clr_ok_vals _ _ Hok) as (V1 & V2).
+    rewrite <- Eold in Emu. destruct (cas2_word (muw w) (k_set k) (k_clr k) L1 V1 V2) as ((C1 & C2 & C3) & _). rewrite <- Emu in *.
+    split.
+    + split; [exact C1|]. split; [lia|]. split; [lia|]. split; [lia|].
+      intros t' m. destruct (Nat.eq_dec t' t) as [->|Hne]; [|now apply L5']. intros Hp. rewrite Hp in El. discriminate El.
+    + split; [|split].
+      * intros t0 Hs. rewrite Esp in Hs. discriminate.
+      * intros t0 k0. destruct (Nat.eq_dec t0 t) as [->|Hne]; [rewrite Er1; discriminate|].
+        rewrite Hoth by assumption. intros Hr. destruct (F2 t0 k0 Hr) as (A & _). congruence.
+      * intros t0 old0. destruct (Nat.eq_dec t0 t) as [->|Hne]; [rewrite Ec; discriminate | now apply F3'].
+Qed.
+
+(* ---------- begin_op, environment, init ---------- *)
+Lemma begin_op_held w t t' : held (get (begin_op w t) t') = held (get w t').
+Proof.
+  destruct (Nat.eq_dec t' t) as [->|Hne]; [|now rewrite begin_op_other by congruence].
+  unfold begin_op. destruct (t_pc (get w t)) eqn:Hpc; try reflexivity. destruct (t_ops (get w t)) as [|o rest] eqn:Hops; [reflexivity|].
+  destruct (le_lt_dec (length (thr w)) t) as [Hoob|Hlt]; [rewrite (get_oob w t Hoob) in Hops; discriminate|].
+  destruct o; get_nf; reflexivity.
+Qed.
+Lemma begin_op_pcs w t : rel_pc (t_pc (get (begin_op w t) t)) = rel_pc (t_pc (get w t)) /\
+  cas1_old (t_pc (get (begin_op w t) t)) = cas1_old (t_pc (get w t)) /\
+  (forall m, t_pc (get (begin_op w t) t) = MLock m -> t_pc (get w t) = MLock m \/ held (get w t) = None).
+Proof.
+  destruct (begin_op_pc w t) as [E|(Hpc & _ & o & rest & _ & E)]; [rewrite E; auto|].
+  rewrite E, Hpc. destruct o; simpl; try destruct (held (get w t)); simpl; repeat split; auto; intros ? [=].
+Qed.
+Lemma LF_begin_op w t : LInv w -> FInv w -> LInv (begin_op w t) /\ FInv (begin_op w t).
+Proof.
+  intros (L1 & L2 & L3 & L4 & L5) (F1 & F2 & F3).
+  pose proof (begin_op_misc w t) as (_ & _ & Hlen & _ & _ & _ & _ & _ & Emu & Eq & _ & Esp & _).
+  assert (EW : sumf hW (thr (begin_op w t)) = sumf hW (thr w)).
+  { apply sumf_ext; [exact Hlen|]. intros t'. unfold hW. exact (f_equal (fun h => match h with Some W => 1 | _ => 0 end) (begin_op_held w t t')). }
+  assert (ER : sumf hR (thr (begin_op w t)) = sumf hR (thr w)).
+  { apply sumf_ext; [exact Hlen|]. intros t'. unfold hR. exact (f_equal (fun h => match h with Some R => 1 | _ => 0 end) (begin_op_held w t t')). }
+  destruct (begin_op_pcs w t) as (P1 & P2 & P3).
+  split.
+  - unfold LInv. rewrite Emu, EW, ER. repeat split; auto; try apply L1.
+    intros t' m. rewrite begin_op_held. destruct (Nat.eq_dec t' t) as [->|Hne]; [|rewrite begin_op_other by congruence; apply L5].
+    intros Hp. destruct (P3 m Hp) as [Hp'|Hh]; [now apply (L5 t m) | exact Hh].
+  - unfold FInv. rewrite Emu, Eq, Esp. split; [|split].
+    + intros t0 Hs. destruct (F1 t0 Hs) as (A & k & B). split; [exact A|]. exists k.
+      destruct (Nat.eq_dec t0 t) as [->|Hne]; [now rewrite P1 | now rewrite begin_op_other by congruence].
+    + intros t0 k. destruct (Nat.eq_dec t0 t) as [->|Hne]; [rewrite P1 | rewrite begin_op_other by congruence]; apply F2.
+    + intros t0 old. destruct (Nat.eq_dec t0 t) as [->|Hne]; [rewrite P2 | rewrite begin_op_other by congruence]; apply F3.
+Qed.
+
+(* what an environment step does to the abstract mutex *)
+Lemma env_mu w a c : (forall t, a <> Thr t) ->
+  let w' := fst (step w a c) in
+  mspin w' = mspin w /\
+  (muw w' = muw w \/
+   (exists f, muw w' = mu_lockf (muw w) + mu_flags (wrap_u 32 f) /\ (mspin w <> None -> has (mu_flags (wrap_u 32 f)) MU_SPINLOCK = true))) /\
+  (muq w' = muq w \/ mspin w = None).
+Proof.
+  intros Ha. destruct a; try (exfalso; eapply Ha; reflexivity); simpl; destr_all; simpl; repeat split; auto.
+  - right. exists flags. split; [reflexivity|]. intros Hs. destruct (mspin w); [assumption | now elim Hs].
+  - destruct (mspin w); [discriminate | now right].
+Qed.
+
+Lemma LF_step w a c : Inv w -> LInv w -> FInv w -> LInv (fst (step w a c)) /\ FInv (fst (step w a c)).
+Proof.
+  intros HI HL HF. destruct a as [t| | | | | | | |].
+  { simpl. destruct (le_lt_dec (length (thr w)) t) as [Hoob|Hlt]; [rewrite step_thr_oob by assumption; auto|].
+    unfold step_thr. destruct (LF_begin_op w t HL HF) as (HL' & HF'). destruct HI as (HT & _).
+    apply LF_step_core; [now apply TInv_begin_op | exact HL' | exact HF' |].
+    now rewrite (proj1 (proj2 (proj2 (begin_op_misc w t)))). }
+  all: match goal with |- LInv (fst (step ?w0 ?a ?c0)) /\ _ =>
+         pose proof (env_frame w0 a c0 ltac:(intros; discriminate)) as (Hg & _ & _ & _ & _ & Hlen & _);
+         pose proof (env_mu w0 a c0 ltac:(intros; discriminate)) as (Esp & Emu & Eq); cbv zeta in Hg, Hlen, Esp, Emu, Eq;
+         set (w' := fst (step w0 a c0)) in * end.
+  all: destruct HL as (L1 & L2 & L3 & L4 & L5); destruct HF as (F1 & F2 & F3).
+  all: assert (EW : sumf hW (thr w') = sumf hW (thr w)) by (apply sumf_ext; [exact Hlen | intros t'; exact (f_equal hW (Hg t'))]).
+  all: assert (ER : sumf hR (thr w') = sumf hR (thr w)) by (apply sumf_ext; [exact Hlen | intros t'; exact (f_equal hR (Hg t'))]).
+  all: assert (Hword : same_lock (muw w) (muw w') /\ (mspin w <> None -> has (muw w') MU_SPINLOCK = true)).
+  all: try (destruct Emu as [Emu|(f & Emu & Hg2)];
+            [ rewrite Emu; split; [split; [exact L1 | split; reflexivity] | intros Hs; destruct (mspin w) as [t0|] eqn:Es; [apply (F1 t0 eq_refl) | now elim Hs]]
+            | pose proof (env_word (muw w) f L1) as (X1 & X2); cbv zeta in X1, X2; rewrite <- Emu in X1, X2; split; [exact X1 | intros Hs; rewrite X2; now apply Hg2] ]).
+  all: destruct Hword as ((W1 & W2 & W3) & W4).
+  all: split; [ unfold LInv; rewrite EW, ER; split; [exact W1|]; split; [lia|]; split; [lia|]; split; [exact L4|]; intros t' m; rewrite Hg; apply L5
+              | unfold FInv; split; [|split];
+                [ intros t0 Hs; rewrite Esp in Hs; split; [apply W4; congruence | rewrite Hg; apply (F1 t0 Hs)]
+                | intros t0 k; rewrite Hg, Esp; intros Hr; destruct (F2 t0 k Hr) as (A & B); split; [exact A|];
+                  destruct Eq as [-> | Eq]; [exact B | congruence]
+                | intros t0 old; rewrite Hg; apply F3 ] ].
+Qed.
+
+Lemma sumf_init f (progs : list (list op)) : f (mk_t Idle [] None []) = 0 -> (forall p, f (mk_t Idle p None []) = 0) ->
+  sumf f (map (fun p => mk_t Idle p None []) progs) = 0.
+Proof. intros _ H. induction progs as [|p l IH]; simpl; [reflexivity|]. rewrite H, IH. reflexivity. Qed.
+Lemma LF_init progs clock0 exp : LInv (init progs clock0 exp) /\ FInv (init progs clock0 exp).
+Proof.
+  split.
+  - unfold LInv. simpl muw. simpl thr. rewrite !sumf_init by reflexivity. unfold word_ok. repeat split; try lia; auto.
+    intros t m H. rewrite (proj1 (get_init progs clock0 exp t)) in H. discriminate.
+  - unfold FInv. split; [|split].
+    + intros t H. discriminate.
+    + intros t k H. rewrite (proj1 (get_init progs clock0 exp t)) in H. discriminate.
+    + intros t old H. rewrite (proj1 (get_init progs clock0 exp t)) in H. discriminate.
+Qed.
+Lemma LF_run progs clock0 exp sched : LInv (run (init progs clock0 exp) sched) /\ FInv (run (init progs clock0 exp) sched).
+Proof.
+  induction sched as [|[a c] s IH] using rev_ind; [apply LF_init|]. rewrite run_snoc. destruct IH. apply LF_step; [apply Inv_run | assumption | assumption].
+Qed.
+
+(* the lock field of the abstract mutex word counts the holders of the model (mutual exclusion of the abstract mutex) *)
+Lemma lock_field_reachable progs clock0 exp sched :
+  let w := run (init progs clock0 exp) sched in
+  0 <= muw w < 4294967296 /\ muw w mod 2 = sumf hW (thr w) /\ muw w / 256 = sumf hR (thr w) /\
+  (sumf hW (thr w) = 0 \/ sumf hR (thr w) = 0).
+Proof. cbv zeta. destruct (LF_run progs clock0 exp sched) as ((L1 & L2 & L3 & L4 & _) & _). auto. Qed.
+
+(* ---------- F15: the waiting bit of the mutex word after wake_waiters' release ---------- *)
+(* the test nsync_dll_is_empty_ (pmu->waiters) is made in the step of the CAS that takes the mutex spinlock (any world) *)
+Lemma release_decided_step w t c k old : (t < length (thr w))%nat -> pcof w t = VCas1 k old -> muw w = old ->
+  let w' := fst (step_core w t c) in
+  exists k', pcof w' t = VLoad3 k' /\ k_envq k' = env_reports_queued c /\ k_clr k' = clear_on_release (muq w') (k_envq k').
+Proof.
+  intros Hlt Hpc Hmu. unfold pcof in *. cbv zeta. unfold step_core. rewrite Hpc. unfold st_VCas1, wake_waiters_cas1_old.
+  rewrite Hmu, Z.eqb_refl. destruct (xfer _ _ _) as [[moved stay] set_on]. simpl fst. pc_nf. eexists. split; [reflexivity|]. split; reflexivity.
+Qed.
+
+(* the release step of wake_waiters in a reachable world *)
+Lemma release_step_reachable progs clock0 exp sched :
+  let w := run (init progs clock0 exp) sched in
+  forall t k old c, pcof w t = VCas2 k old -> muw w = old ->
+  let w' := fst (step w (Thr t) c) in
+  mspin w = Some t /\ clr_ok k (muq w) /\ word_ok (muw w) /\
+  pcof w' t = enter_wake_loop k /\ mspin w' = None /\ muq w' = muq w /\ muw w' = wake_waiters_cas2_new old (k_set k) (k_clr k).
+Proof.
+  cbv zeta. intros t k old c Hpc Hmu. destruct (LF_run progs clock0 exp sched) as (HL & HF).
+  set (w := run (init progs clock0 exp) sched) in *. destruct HL as (L1 & _). destruct HF as (_ & F2 & _).
+  unfold pcof in *. destruct (F2 t k) as (Hsp & Hok); [now rewrite Hpc|].
+  assert (Hlt : (t < length (thr w))%nat).
+  { destruct (le_lt_dec (length (thr w)) t) as [Hoob|]; [|assumption]. rewrite (get_oob w t Hoob) in Hpc. discriminate. }
+  assert (Hb : begin_op w t = w) by (unfold begin_op; now rewrite Hpc).
+  split; [exact Hsp|]. split; [exact Hok|]. split; [exact L1|].
+  simpl step. unfold step_thr. rewrite Hb. unfold step_core. rewrite Hpc. unfold st_VCas2, wake_waiters_cas2_old. rewrite Hmu, Z.eqb_refl. simpl fst.
+  rewrite pc_set_pc by (unfold wake_done; destruct (k_wake k); simpl; assumption).
+  split; [reflexivity|]. unfold wake_done. destruct (k_wake k); simpl; auto.
+Qed.
+
+(* MU_WAITING is set after the release only if a waiter is queued: a transferred one, or a plain locker reported by the environment *)
+Lemma waiting_bit_has_a_waiter_reachable progs clock0 exp sched :
+  let w := run (init progs clock0 exp) sched in
+  forall t k old c, pcof w t = VCas2 k old -> muw w = old ->
+  let w' := fst (step w (Thr t) c) in
+  has (muw w') MU_WAITING = true -> muq w' <> [] \/ k_envq k = true.
+Proof.
+  cbv zeta. intros t k old c Hpc Hmu.
+  destruct (release_step_reachable progs clock0 exp sched t k old c Hpc Hmu) as (_ & (Hs & Hok) & L1 & _ & _ & Eq & Emu).
+  rewrite Eq, Emu. intros Hbit. destruct Hok as [(Hc & _ & _)|(_ & Hq)]; [|exact Hq].
+  exfalso. rewrite <- Hmu in Hbit. destruct (cas2_word _ (k_set k) (k_clr k) L1 Hs (or_intror Hc)) as (_ & X & _). rewrite (X Hc) in Hbit. discriminate.
+Qed.
+(* ... it is taken back when nobody is queued (the repair of F15), and left as it was when somebody is *)
+Lemma waiting_bit_exact_reachable progs clock0 exp sched :
+  let w := run (init progs clock0 exp) sched in
+  forall t k old c, pcof w t = VCas2 k old -> muw w = old ->
+  let w' := fst (step w (Thr t) c) in
+  (muq w = [] /\ k_envq k = false -> has (muw w') MU_WAITING = false) /\
+  (muq w <> [] \/ k_envq k = true -> has (muw w') MU_WAITING = has old MU_WAITING).
+Proof.
+  cbv zeta. intros t k old c Hpc Hmu.
+  destruct (release_step_reachable progs clock0 exp sched t k old c Hpc Hmu) as (_ & (Hs & Hok) & L1 & _ & _ & Eq & Emu).
+  rewrite Emu, <- Hmu. split.
+  - intros (Hq & He). destruct Hok as [(Hc & _ & _)|(_ & [Hq'|He'])]; [|congruence|congruence].
+    destruct (cas2_word _ (k_set k) (k_clr k) L1 Hs (or_intror Hc)) as (_ & X & _). exact (X Hc).
+  - intros Hq. destruct Hok as [(_ & Hq' & He')|(Hc & _)]; [destruct Hq; congruence|].
+    destruct (cas2_word _ (k_set k) (k_clr k) L1 Hs (or_introl Hc)) as (_ & _ & X). exact (X Hc).
+Qed.
+(* while a wake_waiters owns the mutex spinlock the bit is set in the word, the owner is between the two CASes, and what it
+   will clear was decided against the queue as it still is *)
+Lemma mu_spin_section_reachable progs clock0 exp sched :
+  let w := run (init progs clock0 exp) sched in
+  (forall t, mspin w = Some t -> has (muw w) MU_SPINLOCK = true /\ exists k, rel_pc (pcof w t) = Some k) /\
+  (forall t k, rel_pc (pcof w t) = Some k -> mspin w = Some t /\ clr_ok k (muq w)).
+Proof. cbv zeta. destruct (LF_run progs clock0 exp sched) as (_ & (F1 & F2 & _)). split; assumption. Qed.
